@@ -123,6 +123,12 @@ func c19Projects() []c19Project {
 			c19Project{Name: "mentions-" + k + "/carrier-c", Carrier: true, P: impl.Single("JSIGHT 0.3\nTYPE @t // " + k + "\n{\"k\": \"" + k + "\"}\nENUM @e\n[\"" + k + "\"]\nPOST /p\n  Query \"" + k + "\"\n  {\"q\": \"" + k + "\"}\n  Request\n    Headers\n    {\"" + k + "\": \"" + k + "\"}\n    Body any\n  404 any\n")},
 		)
 	}
+	// MACRO definitions (never pasted) written between the children of a URL: the expansion pass has to re-resolve the
+	// contexts of what follows them even when nothing is pasted
+	out = append(out,
+		c19Project{Name: "macro-definitions-inside-url/unpasted", P: impl.Single("JSIGHT 0.3\nURL /x\n  MACRO @m\n  (\n    Description\n      d\n  )\n  GET\n    200 any\n  MACRO @n\n  (\n    GET\n      200 any\n  )\n  POST\n    200 any\n")},
+		c19Project{Name: "macro-definition-after-url-line/unpasted", P: impl.Single("JSIGHT 0.3\nURL /x\nMACRO @m\n(\n  Description\n    d\n)\nGET\n  200 any\nTAG @t\n")},
+	)
 	// everything at once
 	var all []*dt.Node
 	seen := map[string]bool{}
